@@ -18,11 +18,11 @@ use std::time::Duration;
 pub fn meta(m: &mut PropMeta) {
     m.rule = "one diagnostic source per diagnostic kind the compiler can produce from text (30 rule violators of C04, unresolved / wrong-kind / cyclic references, containment and inheritance cycles with multi-note chains, key errors with note spans, redefinitions, deprecated uses whose reason carries quotes, backslashes, tabs and non-ASCII text, broken / malformed / ill-fitting doc comments, syntax errors), alone, in all ordered pairs and (thorough) in triples of lint sources, in one and two files and two layouts (single line / one token per line, so spans cover several lines) x {human, json} x colour {forced on, --disable-color} x --allow {none, Deprecated, All}; emitted in-process by the real DiagnosticEmitter into a buffer (options parsed by the real clap definition); plus a process-level slice through the real binary for totals, exit status, span-less diagnostics (I/O errors, DuplicateFile) and file names with spaces, quotes, backslashes and non-ASCII characters. Oracle: JSON: exactly one line per non-allowed diagnostic, each parses (serde_json) to an object with exactly the keys message, severity, span, notes, error_code whose values equal the diagnostic obtained through the API, in recorded order, nothing else in the stream; human: one 'error [code]' / 'warning [code]' header per non-allowed diagnostic in order with its message, a location line iff it has a span, one 'note:' per note; summary counts on stdout equal the numbers of headers; exit status agrees; with colours disabled no ESC byte; allowed lints leave no byte. non-trivial = at least one diagnostic is emitted and one note or allowed lint is involved; distinct = distinct (program, layout, configuration).";
     m.explanation = "enumeration of diagnostic-producing programs x emission configurations; emitted stream re-parsed independently and compared with the diagnostics obtained through the API";
-    m.quick_bound = "48 sources alone and in all ordered pairs x 2 layouts x 12 configurations (pairs: rotating configuration)";
+    m.quick_bound = "50 sources alone and in all ordered pairs x 2 layouts x 12 configurations (pairs: rotating configuration)";
     m.thorough_bound = "pairs x all 12 configurations; triples of the 14 lint/special sources";
 }
 
-pub const N_SPECIAL: usize = 18;
+pub const N_SPECIAL: usize = 20;
 pub const N_SOURCES: usize = 30 + N_SPECIAL;
 
 /// Diagnostic source k with names made unique by i (each adds definitions to the file).
@@ -90,6 +90,18 @@ pub fn diag_source(k: usize, i: usize) -> Vec<MDef> {
             let mut fl = MField::new("cut", i32t());
             fl.c = fl.c.doc(&[" Does {@link I"]);
             vec![st(&n("CutShort"), vec![MField::new("before", i32t()), fl])]
+        }
+        18 => {
+            // an attribute that is not legal where it stands, BETWEEN two that are
+            let mut d = st(&n("Misplaced"), vec![MField::new("a", i32t())]);
+            *d.common_mut() = d.common().clone().attr(MAttr::new("cs::first")).attr(MAttr::new("oneway")).attr(MAttr::with("cs::last", vec![MArg::Ident("x".into())]));
+            vec![d]
+        }
+        19 => {
+            // an attribute used three times, other attributes between the uses: the repeats are at fault, not the first
+            let mut d = st(&n("Repeated"), vec![MField::new("a", i32t())]);
+            *d.common_mut() = d.common().clone().attr(MAttr::new("deprecated")).attr(MAttr::new("cs::between")).attr(MAttr::new("deprecated")).attr(MAttr::new("cs::again")).attr(MAttr::with("deprecated", vec![MArg::Str("third".into())]));
+            vec![d]
         }
         _ => {
             // ... and with a tab INSIDE the comment line, before the position
